@@ -93,7 +93,9 @@ impl<'a, R> RecordRef<'a, R> {
 // `ds_records.iter().filter(|ds| ds.proof.is_secure())` as a loop source: R-for over the slice with the filter applied
 // as the first statement of the body
 //%fn crates/net/src/dnssec/mod.rs :: verify_dnskey
-//%sub1 "for r in ds_records.iter().filter(|ds| ds.proof.is_secure()) {" => "let mut vp_k: usize = 0; while vp_k < ds_records.len() invariant vp_k <= ds_records@.len(), key_authentication_attempts <= vp_k, key_tag_of(*rr.data) == Some(key_tag), key_algorithm == rr.data.algorithm, key_rdata == rr.data decreases ds_records@.len() - vp_k { let r = &ds_records[vp_k]; vp_k += 1; if !(r.proof.is_secure()) { continue; }" # R-iter: `for x in s.iter().filter(p) { B }` written as the indexed loop `while k < s.len() { let x = &s[k]; k += 1; if !p(x) { continue; } B }` (Verus has no `continue` in `for`); predicate and body verbatim
+//%sub? "for r in ds_records.iter().filter(|ds| ds.proof.is_secure()) {" => "let mut vp_k: usize = 0; while vp_k < ds_records.len() invariant vp_k <= ds_records@.len(), key_authentication_attempts <= vp_k, key_tag_of(*rr.data) == Some(key_tag), key_algorithm == rr.data.algorithm, key_rdata == rr.data decreases ds_records@.len() - vp_k { let r = &ds_records[vp_k]; vp_k += 1; if !(r.proof.is_secure()) { continue; }" # R-iter: `for x in s.iter().filter(p) { B }` written as the indexed loop `while k < s.len() { let x = &s[k]; k += 1; if !p(x) { continue; } B }` (Verus has no `continue` in `for`); predicate and body verbatim
+//%sub? "for r in ds_records.iter() {" => "let mut vp_k: usize = 0; while vp_k < ds_records.len() invariant vp_k <= ds_records@.len(), key_authentication_attempts <= vp_k, key_tag_of(*rr.data) == Some(key_tag), key_algorithm == rr.data.algorithm, key_rdata == rr.data decreases ds_records@.len() - vp_k { let r = &ds_records[vp_k]; vp_k += 1;" # R-iter (form without the filter: not the current source; kept so that a dropped filter is judged, not lost): `for x in s.iter().filter(p) { B }` written as the indexed loop `while k < s.len() { let x = &s[k]; k += 1; if !p(x) { continue; } B }` (Verus has no `continue` in `for`); predicate and body verbatim
+//%sub? "for r in ds_records {" => "let mut vp_k: usize = 0; while vp_k < ds_records.len() invariant vp_k <= ds_records@.len(), key_authentication_attempts <= vp_k, key_tag_of(*rr.data) == Some(key_tag), key_algorithm == rr.data.algorithm, key_rdata == rr.data decreases ds_records@.len() - vp_k { let r = &ds_records[vp_k]; vp_k += 1;" # R-iter (form without the filter: not the current source; kept so that a dropped filter is judged, not lost): `for x in s.iter().filter(p) { B }` written as the indexed loop `while k < s.len() { let x = &s[k]; k += 1; if !p(x) { continue; } B }` (Verus has no `continue` in `for`); predicate and body verbatim
 //%sub1 ".map_err(|_| {" => ".map_err(|vp_e: ProtoError| -> (e: ProofError) ensures e.proof is Insecure {" # R-clo: typed closure, `_` parameter named
 //%before "return Ok(Proof::Secure);"
         proof {
